@@ -27,7 +27,8 @@ RULE = ('Client / AsyncClient on the real engine.io client object, connected '
         'nothing and raise nothing; call() result shaping / TimeoutError. '
         'Non-trivial: equal ids outstanding on two namespaces, or an ACK '
         'repeated after the callback fired, or both directions in one '
-        'history.')
+        'history.'
+        ' Also generated: the answer to something else that is still outstanding (an earlier call() that timed out, an emit with a callback) arrives while a call() waits.')
 ASSUMPTIONS = [
     'the scripted server only sends on namespaces it has accepted',
     'call() time-outs: pumping wait primitive (threaded) / virtual time '
